@@ -70,6 +70,13 @@ pub struct StreamModel {
     pub delivered: u8,
     /// fairness accounting: deliveries to other streams since this one became ready
     pub waiting: Option<u8>,
+    /// how often the key has been inserted again after its stream was gone (a peer reconnecting under its identity)
+    pub life: u8,
+    /// how the previous life ended, as far as calls on the queue are concerned: remove() was called for the key
+    /// after its stream had already ended and gone (what the sockets' end-of-stream callback does). For a correct
+    /// queue this makes no difference to the future; it is kept in the state so that a queue for which it does
+    /// (hidden bookkeeping about removed keys) is not merged with the history in which the call was not made.
+    pub prev_life_removed_after_end: bool,
 }
 
 #[derive(Clone, Copy, Debug, PartialEq, Eq, Hash)]
@@ -91,6 +98,7 @@ pub struct Model {
 }
 
 struct Shared {
+    reinsert: bool,
     model: Model,
     wakers: Vec<Option<Waker>>,
     last_popped: Option<usize>,
@@ -122,6 +130,8 @@ pub struct Config {
     pub block_on_no_clients: bool,
     /// include the PollX event (streams that yield cooperatively)
     pub coop_yield: bool,
+    /// a key whose stream is gone (ended or removed) may be inserted once more with a fresh stream
+    pub reinsert: bool,
 }
 
 pub struct SStream {
@@ -221,11 +231,25 @@ fn apply_simple(sh: &Arc<Mutex<Shared>>, handle: &FairQueueHandle<SStream, usize
             let i = i as usize;
             let ok = {
                 let mut g = sh.lock().unwrap();
-                if g.model.s[i].inserted {
-                    false
-                } else {
-                    g.model.s[i].inserted = true;
+                let reinsert = g.reinsert;
+                let m = &mut g.model.s[i];
+                if !m.inserted {
+                    m.inserted = true;
                     true
+                } else if reinsert && m.dropped && m.life < 1 {
+                    // the key comes back with a fresh stream; what the old stream had not handed out is gone with it
+                    m.life += 1;
+                    m.prev_life_removed_after_end = m.finished && m.remove_called;
+                    m.closed = false;
+                    m.finished = false;
+                    m.remove_called = false;
+                    m.dropped = false;
+                    m.waker_ticket = None;
+                    m.waiting = None;
+                    m.avail = m.consumed;
+                    true
+                } else {
+                    false
                 }
             };
             if ok {
@@ -366,6 +390,7 @@ impl Sim {
             m.avail = cfg.preload.get(i).copied().unwrap_or(0);
         }
         let sh = Arc::new(Mutex::new(Shared {
+            reinsert: cfg.reinsert,
             model: Model {
                 s,
                 last: LastPoll::Never,
@@ -711,10 +736,11 @@ pub fn enabled(cfg: &Config, m: &Model, plain: (u8, u8)) -> Vec<Ev> {
     for i in 0..cfg.k {
         let s = &m.s[i];
         let i8 = i as u8;
-        if !s.inserted {
+        if !s.inserted || (cfg.reinsert && s.dropped && s.life < 1) {
             v.push(Ev::Insert(i8));
         }
-        if s.avail < cfg.items[i] && !s.closed {
+        // (nothing arrives any more for a key whose stream has legitimately gone: ended, or removed)
+        if s.avail < cfg.items[i] && !s.closed && !(cfg.reinsert && s.dropped && (s.finished || s.remove_called)) {
             v.push(Ev::Arrive(i8));
         }
         if s.waker_ticket.is_some() && (s.avail > s.consumed || s.closed) {
@@ -723,7 +749,9 @@ pub fn enabled(cfg: &Config, m: &Model, plain: (u8, u8)) -> Vec<Ev> {
         if cfg.allow_close && s.inserted && !s.closed {
             v.push(Ev::Close(i8));
         }
-        if cfg.allow_remove && s.inserted && !s.remove_called && !s.dropped {
+        // remove() of a live stream, or - what the sockets' end-of-stream callback does - of a key whose
+        // stream has just ended and is already gone from the table
+        if cfg.allow_remove && s.inserted && !s.remove_called && (!s.dropped || (cfg.reinsert && s.finished)) {
             v.push(Ev::Remove(i8));
         }
     }
@@ -996,7 +1024,7 @@ pub fn hist_json(h: &[Ev]) -> Value {
 pub fn cfg_json(c: &Config) -> Value {
     json!({"name": c.name, "k": c.k, "items": c.items, "preload": c.preload, "allow_remove": c.allow_remove, "allow_close": c.allow_close,
            "windows": c.windows, "window_remove_close": c.window_remove_close, "max_depth": c.max_depth, "max_states": c.max_states,
-           "fairness": c.fairness, "fair_bound": c.fair_bound, "block_on_no_clients": c.block_on_no_clients, "coop_yield": c.coop_yield})
+           "fairness": c.fairness, "fair_bound": c.fair_bound, "block_on_no_clients": c.block_on_no_clients, "coop_yield": c.coop_yield, "reinsert": c.reinsert})
 }
 
 pub fn cfg_from_json(v: &Value) -> Option<Config> {
@@ -1016,6 +1044,7 @@ pub fn cfg_from_json(v: &Value) -> Option<Config> {
         fair_bound: v["fair_bound"].as_u64()? as u8,
         block_on_no_clients: v["block_on_no_clients"].as_bool()?,
         coop_yield: v["coop_yield"].as_bool().unwrap_or(false),
+        reinsert: v["reinsert"].as_bool().unwrap_or(false),
     })
 }
 
@@ -1112,12 +1141,15 @@ pub fn replay_print(cfg: &Config, hist: &[Ev]) -> Option<(String, String)> {
         if let Some(v) = m.violations.first() {
             return Some(v.clone());
         }
+        if std::env::var("VERIF_E2_SHOW_ENABLED").is_ok() {
+            println!("        enabled next (besides Poll): {:?}", enabled(cfg, &m, (2, 2)).iter().filter(|e| !matches!(e, Ev::PollW { .. } | Ev::PollW2 { .. })).map(|e| e.show()).collect::<Vec<_>>());
+        }
     }
     sim.fair_drain()
 }
 
 pub fn is_c06_class(c: &str) -> bool {
-    matches!(c, "lost-wakeup" | "receiver-waker-not-published" | "stuck-with-available-item" | "starvation" | "livelock" | "queue-ended" | "livelock-on-self-waking-stream")
+    matches!(c, "lost-wakeup" | "receiver-waker-not-published" | "stuck-with-available-item" | "starvation" | "livelock" | "queue-ended" | "livelock-on-self-waking-stream" | "live-stream-dropped")
 }
 
 pub fn general_configs(thorough: bool) -> Vec<Config> {
@@ -1136,9 +1168,12 @@ pub fn general_configs(thorough: bool) -> Vec<Config> {
         fair_bound: 0,
         block_on_no_clients: true,
         coop_yield: true,
+        reinsert: false,
     };
     let mut v = vec![
         Config { name: "k2-items2,2-remove-close-win1".into(), ..base.clone() },
+        // a key whose stream has ended or was removed comes back once with a fresh stream (a peer reconnecting under its identity)
+        Config { name: "k2-items3,2-remove-close-reinsert-win0".into(), items: vec![3, 2], windows: 0, coop_yield: false, reinsert: true, ..base.clone() },
         Config { name: "k3-items1,1,1-remove-close-win1".into(), k: 3, items: vec![1, 1, 1], preload: vec![0, 0, 0], ..base.clone() },
         Config { name: "k3-items2,1,1-close-win1".into(), k: 3, items: vec![2, 1, 1], preload: vec![0, 0, 0], allow_remove: false, ..base.clone() },
         Config { name: "k2-items2,1-win2".into(), k: 2, items: vec![2, 1], windows: 2, allow_remove: false, ..base.clone() },
@@ -1147,6 +1182,7 @@ pub fn general_configs(thorough: bool) -> Vec<Config> {
         v.push(Config { name: "k3-items2,2,2-remove-close-win1-depth11".into(), k: 3, items: vec![2, 2, 2], preload: vec![0, 0, 0], max_depth: 12, max_states: 12_000_000, ..base.clone() });
         v.push(Config { name: "k3-items2,1,1-remove-close-win2".into(), k: 3, items: vec![2, 1, 1], preload: vec![0, 0, 0], windows: 2, max_depth: 12, ..base.clone() });
         v.push(Config { name: "k2-items3,3-remove-close-win1".into(), k: 2, items: vec![3, 3], ..base.clone() });
+        v.push(Config { name: "k2-items3,2-remove-close-reinsert-win1".into(), items: vec![3, 2], windows: 1, coop_yield: false, reinsert: true, ..base.clone() });
     }
     v
 }
@@ -1167,6 +1203,7 @@ pub fn fairness_configs(thorough: bool) -> Vec<Config> {
         fair_bound: 2,
         block_on_no_clients: true,
         coop_yield: false,
+        reinsert: false,
     };
     let mut v = vec![
         Config { name: "fair-n2-busy5".into(), ..base.clone() },
